@@ -124,17 +124,18 @@ def make_singleton_classes(log):
     ts = []
     A = singleton.TrueSingleton("TA", (), {"__init__": init})
     B = singleton.TrueSingleton("TB", (A,), {})
-    C = singleton.TrueSingleton("TC", (), {"__init__": init})
+    # instances of TC (and of the semi-singleton classes SC, SF) are FALSY objects
+    C = singleton.TrueSingleton("TC", (), {"__init__": init, "__len__": lambda self: 0})
     ts = [A, B, C]
     M0 = singleton.semi_singleton_metaclass()
     M1 = singleton.semi_singleton_metaclass()
     M2 = singleton.semi_singleton_metaclass(hashfunc=lambda args, kwargs: len(args) + len(kwargs))
     S0 = M0("SA", (), {"__init__": init})
     S1 = M0("SB", (S0,), {})
-    S2 = M0("SC", (), {"__init__": init})
+    S2 = M0("SC", (), {"__init__": init, "__bool__": lambda self: False})
     S3 = M1("SD", (), {"__init__": init})
     S4 = M2("SE", (), {"__init__": init})
-    S5 = M2("SF", (S4,), {})
+    S5 = M2("SF", (S4,), {"__len__": lambda self: 0})
     return ts, [S0, S1, S2, S3, S4, S5]
 
 
@@ -772,6 +773,8 @@ class Real:
             code = lambda x: 0 if x is None else self.vname(x) + 1  # noqa: E731
             if toks[2] == "repr":
                 rf = None
+            elif toks[2] == "dup":
+                rf = lambda x: "none" if x is None else "w%d" % (self.vname(x) % 2)  # noqa: E731  (labels shared by several vertices)
             else:
                 rf = lambda x: "none" if x is None else "v%d" % self.vname(x)  # noqa: E731
             sort = None
